@@ -85,3 +85,12 @@ Example C02_spec_example :
   /\ same_meaning true false false res_path [97;37;50;70;98]%N [97;47;98]%N = false.                            (* an encoded '/' decoded *)
 Proof. split; vm_compute; reflexivity. Qed.
 Print Assumptions C02_spec_example.
+
+(** Tie to the source: the constructor these theorems start from is the one yarl/_url.py
+    defines - encode_url is re-translated from the working tree on every run and builds the
+    model's URL value on every input (statement and trusted base: C07_source_encode_url). *)
+From Yarl Require Import Model.Url Model.GenTypes Generated.UrlGen Proofs.GenUrlProofs.
+Theorem C02_source_encode_url : forall (O : oracles) (B : backend) (s : str),
+  same_outcome (gen_encode_url O B s) (encode_url O B s).
+Proof. exact gen_encode_url_ok. Qed.
+Print Assumptions C02_source_encode_url.
